@@ -91,6 +91,7 @@ def run(ctx, chk):
     n = lambda r: len([i for i in chk.instances if i[0] == r])
     chk.floor("L1", n("L1"), 50)
     chk.floor("L2", n("L2"), 80)
+    chk.floor("L20", n("L20"), 5)
 
 
 def _siblings(fb, chk):
